@@ -8,6 +8,8 @@ package retry
 
 import (
 	"context"
+	"errors"
+	"fmt"
 	"net/http"
 	"strconv"
 	"strings"
@@ -112,11 +114,31 @@ func (c Config) Validate() Config {
 	return validated
 }
 
+// StatusError reports an HTTP response status as an error. IsRetryableError
+// classifies it by its code alone, so that text in the response body is never
+// mistaken for a status.
+type StatusError struct {
+	Code int
+	Body string
+}
+
+// Error implements error.
+func (e *StatusError) Error() string {
+	return fmt.Sprintf("status code %d, body: %s", e.Code, e.Body)
+}
+
 // IsRetryableError determines if an error is retryable based on its characteristics.
 // This function uses precise pattern matching to avoid false positives.
 func IsRetryableError(err error) bool {
 	if err == nil {
 		return false
+	}
+
+	var statusErr *StatusError
+	if errors.As(err, &statusErr) {
+		code := statusErr.Code
+		return code == http.StatusRequestTimeout || code == http.StatusConflict ||
+			code == http.StatusTooManyRequests || (code >= 500 && code <= 599)
 	}
 
 	errStr := strings.ToLower(err.Error())
